@@ -227,6 +227,7 @@ func (e StdEng) reduce(
 
 		retVal = a
 		dimsReduced := 0
+		along = append([]int(nil), along...) // the axes belong to the caller: sort a copy
 		sort.Slice(along, func(i, j int) bool { return along[i] < along[j] })
 
 		for _, axis := range along {
